@@ -415,6 +415,13 @@ def kind_task(task):
 def large_tasks(tier):
     sizes = [1034, 1035, 1036, 2071] if tier == 'quick' else [1034, 1035, 1036, 2069, 2070, 2071, 3106, 4200]
     ts = []
+    # single reads of 4 to 10 MiB on files of 4097 .. 10400 blocks ("exactly the requested number of bytes")
+    for nb, reads in ((4097, [(1 << 22) - 1, 1 << 22, (1 << 22) + 1013]), (5200, [4200000, 5000000, 5262399, 5262400]),
+                      (10400, [8 << 20, 10 << 20])):
+        if tier == 'quick' and nb == 10400:
+            reads = reads[:1]
+        for r in reads:
+            ts.append({'blocks': nb, 'script': r, 'kind': 'bytesio'})
     for nb in sizes:
         for i, script in enumerate(LARGE_SCRIPTS):
             kinds = ['bytesio', 'file', 'pipe', 'minimal', 'smallbuf', 'zip', 'mmap']
